@@ -15,26 +15,63 @@ namespace Timepb
 theorem src_IsZero (t : Option SN) : Xf.timepb_IsZero t = .ok t.isNone := by
   simp [Xf.timepb_IsZero]
 
-theorem src_Compare (a b : Option SN) : Xf.timepb_Compare a b = compareOpt a b := by
-  cases a <;> cases b <;> simp [Xf.timepb_Compare, compareOpt, compare]
-  go_cases
+/-- every Go value of the two message types: seconds an int64, nanos an int32 -/
+def InR (x : Option SN) : Prop := ∀ v, x = some v → InRange v
 
-theorem src_DurationIsNegative (d : SN) :
+theorem src_Compare (a b : Option SN) (ha : InR a) (hb : InR b) : Xf.timepb_Compare a b = compareOpt a b := by
+  cases a with
+  | none => cases b <;> simp [Xf.timepb_Compare, compareOpt]
+  | some x =>
+    cases b with
+    | none => simp [Xf.timepb_Compare, compareOpt]
+    | some y =>
+      have hx := ha x rfl
+      have hy := hb y rfl
+      simp only [InRange] at hx hy
+      simp [Xf.timepb_Compare, compareOpt, compare, wrap64, wrap32]
+      go_cases
+
+theorem src_DurationIsNegative (d : SN) (hd : InRange d) :
     Xf.timepb_DurationIsNegative (some d) = .ok (durationIsNegative d) := by
-  simp [Xf.timepb_DurationIsNegative, durationIsNegative]
+  simp only [InRange] at hd
+  simp [Xf.timepb_DurationIsNegative, durationIsNegative, wrap64, wrap32]
   go_cases
 
-theorem src_overflowPanic (t1 t2 : SN) (neg : Bool) :
+theorem src_overflowPanic (t1 t2 : SN) (h1 : InRange t1) (h2 : InRange t2) (neg : Bool) :
     Xf.timepb_overflowPanic (some t1) (some t2) neg = if overflowPanics t1 t2 neg then .panic else .ok () := by
-  simp [Xf.timepb_overflowPanic, src_Compare, compareOpt, overflowPanics]
+  have e := src_Compare (some t1) (some t2) (fun v h => by cases h; exact h1) (fun v h => by cases h; exact h2)
+  simp only [InRange] at h1 h2
+  simp [Xf.timepb_overflowPanic, e, compareOpt, overflowPanics, compare, wrap64, wrap32]
   go_cases
 
-theorem src_Add (t : Option SN) (d : SN) : Xf.timepb_Add t (some d) = add t d := by
+theorem wrap64_lb (x : Int) : -9223372036854775808 ≤ wrap64 x := by unfold wrap64; simp only []; split <;> omega
+theorem wrap64_ub (x : Int) : wrap64 x ≤ 9223372036854775807 := by unfold wrap64; simp only []; split <;> omega
+theorem wrap32_lb (x : Int) : -2147483648 ≤ wrap32 x := by unfold wrap32; simp only []; split <;> omega
+theorem wrap32_ub (x : Int) : wrap32 x ≤ 2147483647 := by unfold wrap32; simp only []; split <;> omega
+
+theorem wrap64_idem (x : Int) : wrap64 (wrap64 x) = wrap64 x := wrap64_id (wrap64_lb x) (wrap64_ub x)
+theorem wrap32_idem (x : Int) : wrap32 (wrap32 x) = wrap32 x := wrap32_id (wrap32_lb x) (wrap32_ub x)
+
+/-- whatever `Add` builds from wrapped sums is a value of the message type again -/
+theorem inRange_wrapped (a b : Int) : InRange ⟨wrap64 a, wrap32 b⟩ :=
+  ⟨wrap64_lb a, wrap64_ub a, wrap32_lb b, wrap32_ub b⟩
+
+theorem src_Add (t : Option SN) (d : SN) (ht : InR t) (hd : InRange d) : Xf.timepb_Add t (some d) = add t d := by
   cases t with
   | none => simp [Xf.timepb_Add, add]
   | some t =>
-    simp [Xf.timepb_Add, add, src_DurationIsNegative, src_overflowPanic, second]
-    go_cases
+    have htr := ht t rfl
+    have hpanic : ∀ (t2 : SN) (neg : Bool), InRange t2 →
+        Xf.timepb_overflowPanic (some t) (some t2) neg = if overflowPanics t t2 neg then .panic else .ok () :=
+      fun t2 neg h2 => src_overflowPanic t t2 htr h2 neg
+    simp only [InRange] at htr hd
+    simp [Xf.timepb_Add, add, src_DurationIsNegative d (by simp only [InRange]; exact hd), second]
+    simp only [hpanic _ _ (inRange_wrapped _ _)]
+    repeat' split
+    all_goals (try simp_all)
+    all_goals (try simp (disch := omega) only [wrap32_id, wrap64_id, wrap64_idem, wrap32_idem, ← Int.sub_eq_add_neg] at *)
+    all_goals (try simp_all)
+    all_goals (try omega)
 
 end Timepb
 
